@@ -32,6 +32,11 @@ def _padd(a, b, sign=1):
     return out
 
 
+def _mkey(item):
+    k = item[0]
+    return (k[0], str(k[1]), hash(k[2]) if len(k) > 2 else 0)
+
+
 def _mmul(m1, m2):
     if not m1:
         return m2
@@ -40,7 +45,7 @@ def _mmul(m1, m2):
     d = dict(m1)
     for k, e in m2:
         d[k] = d.get(k, 0) + e
-    return tuple(sorted(d.items()))
+    return tuple(sorted(d.items(), key=_mkey))
 
 
 class Normalizer:
@@ -75,7 +80,7 @@ class Normalizer:
         for i, (k, e) in enumerate(m):
             if e >= 2 and k in self.sqrt_arg:
                 rest = m[:i] + (((k, e % 2),) if e % 2 else ()) + m[i + 1:]
-                base = {tuple(sorted(rest)): c}
+                base = {tuple(sorted(rest, key=_mkey)): c}
                 arg = self.sqrt_arg[k]
                 p = base
                 for _ in range(e // 2):
@@ -116,7 +121,7 @@ class Normalizer:
             key = ("p", p)
             self.sqrt_arg[key] = self.const(Fraction(p))
             mono.append((key, 1))
-        return {tuple(sorted(mono)): Fraction(k, fr.denominator)}
+        return {tuple(sorted(mono, key=_mkey)): Fraction(k, fr.denominator)}
 
     # ---- conversion
     def rat(self, t):
@@ -168,11 +173,21 @@ class Normalizer:
                     if p is not None:
                         return p, one
                 an, ad = self.rat(arg)
-                a = self.atom(t)
+                a, key = self.uf_atom(t, "sqrt", [(an, ad)])
                 if ad == one:
-                    self.sqrt_arg[("a", t.get_id())] = an
+                    self.sqrt_arg[key] = an
+                return a, one
+            if k == z3.Z3_OP_UNINTERPRETED and len(ch) >= 1 and all(c.sort_kind() == z3.Z3_REAL_SORT for c in ch):
+                # congruence: f(p) and f(q) are the same atom when p and q have the same normal form
+                a, _key = self.uf_atom(t, t.decl().name(), [self.rat(c) for c in ch])
                 return a, one
         return self.atom(t), one
+
+    def uf_atom(self, t, name, args):
+        canon = tuple((frozenset(n.items()), frozenset(d.items())) for n, d in args)
+        key = ("u", name, canon)
+        self.atoms[key] = t
+        return {((key, 1),): Fraction(1)}, key
 
 
 def is_identity(eq):
